@@ -284,6 +284,10 @@ fn fn_json(
         syn::ReturnType::Default => "null".into(),
         syn::ReturnType::Type(_, t) => span_json(t.span()),
     };
+    let stmts: Vec<String> = match block {
+        Some(b) => b.stmts.iter().map(|st| span_json(st.span())).collect(),
+        None => Vec::new(),
+    };
     let (body_open, body_close) = match block {
         Some(b) => {
             let (a, e) = br(b.span());
@@ -321,7 +325,7 @@ fn fn_json(
     };
     let (s, e) = br(whole);
     format!(
-        "{{\"kind\":\"fn\",\"name\":{},\"start\":{},\"end\":{},\"attrs\":{},\"vis\":{},\"sig\":{},\"ret\":{},\"generics\":{},\"gparams\":{},\"where\":{},\"params\":[{}],\"body_open\":{},\"body_close\":{},\"loops\":[{}],\"let_loops\":[{}],\"ref_pats\":[{}],\"wilds\":[{}],\"closures\":{},\"idents\":[{}]}}",
+        "{{\"kind\":\"fn\",\"name\":{},\"start\":{},\"end\":{},\"attrs\":{},\"vis\":{},\"sig\":{},\"ret\":{},\"generics\":{},\"gparams\":{},\"where\":{},\"params\":[{}],\"body_open\":{},\"body_close\":{},\"stmts\":[{}],\"loops\":[{}],\"let_loops\":[{}],\"ref_pats\":[{}],\"wilds\":[{}],\"closures\":{},\"idents\":[{}]}}",
         jstr(&sig.ident.to_string()),
         s,
         e,
@@ -335,6 +339,7 @@ fn fn_json(
         params.join(","),
         body_open,
         body_close,
+        stmts.join(","),
         info.loops.join(","),
         info.let_loops.join(","),
         info.ref_pats.join(","),
